@@ -101,25 +101,30 @@ int main(int argc, char **argv){
   std::vector<int> space = grid.getGlobalPolynomialSpace(false);
   int M = (int) space.size() / d;
   fpsym_note("monomials", M);
-  std::vector<double> pv(n, 0.0); double expect = 0.0, scale = 1.0;
+  std::vector<double> pv(n, 0.0); double expect = 0.0, scale = 1.0; int used = 0;
   for (int m=0;m<M;m++){
     // clenshaw-curtis-zero is by documentation a rule for functions vanishing at the boundary: a declared multi-index s stands for
-    // f = prod_j (1-x_j^2) x_j^(s_j-2); indexes with some s_j < 2 have no such function
+    // f = prod_j (1-c_j^2) c_j^(s_j-2) in canonical coordinates c; indexes with some s_j < 2 have no such function
     if (kind == W_CC0){ bool ok = true; for (int j=0;j<d;j++) if (space[(size_t) m * d + j] < 2) ok = false; if (!ok) continue; }
+    used++;
     double cm = fpsym_symbolic(0.5 - 0.03 * m, 100 + m, -1.0, 1.0);
     long double mu = 1.0L;
-    for (int j=0;j<d;j++) mu *= tmoment(kind, space[(size_t) m * d + j], al, be, g.transform != 0, g.transform ? g.ta[j] : 0.0L, g.transform ? g.tb[j] : 0.0L);
+    for (int j=0;j<d;j++){
+      if (kind == W_CC0) mu *= cmoment(kind, space[(size_t) m * d + j], al, be) * (g.transform ? 0.5L * ((long double) g.tb[j] - g.ta[j]) : 1.0L);
+      else mu *= tmoment(kind, space[(size_t) m * d + j], al, be, g.transform != 0, g.transform ? g.ta[j] : 0.0L, g.transform ? g.tb[j] : 0.0L);
+    }
     expect += cm * (double) mu; scale += std::fabs((double) mu);
     for (int i=0;i<n;i++){
       double mono = 1.0;
       for (int j=0;j<d;j++){
         double x = pts[(size_t) i * d + j];
-        if (kind == W_CC0) mono *= std::pow(x, space[(size_t) m * d + j] - 2) * (1.0 - x) * (1.0 + x);
+        if (kind == W_CC0){ double c = g.transform ? (2.0 * x - g.ta[j] - g.tb[j]) / (g.tb[j] - g.ta[j]) : x; mono *= std::pow(c, space[(size_t) m * d + j] - 2) * (1.0 - c) * (1.0 + c); }
         else mono *= std::pow(x, space[(size_t) m * d + j]);
       }
       pv[i] += cm * mono; scale += std::fabs(w[i] * mono);
     }
   }
+  fpsym_note("test_functions", used);
   double q = 0, sw = 0; for (int i=0;i<n;i++){ q += w[i] * pv[i]; sw += w[i]; }
   fpsym_eq(q, expect, scale, "weights integrate every polynomial of getGlobalPolynomialSpace(false) exactly");
   if (kind != W_CC0){
@@ -132,6 +137,6 @@ int main(int argc, char **argv){
     std::vector<double> qi; grid.integrate(qi);
     fpsym_eq(qi[0], expect, scale, "integrate() of the loaded polynomial is exact");
   }
-  fpsym_nonconst(q, "witness: quadrature value depends on the coefficients");
+  if (used > 0) fpsym_nonconst(q, "witness: quadrature value depends on the coefficients");
   fpsym_finish(); return 0;
 }
